@@ -1002,9 +1002,78 @@ def do_agree(run, slots, op, idx, regime):
     run.event(idx, "agree", sorted((a, repr(c)) for a, c in cost.items()))
 
 
+def e7_check(run, case, hashseeds, paddings, order):
+    """Instrumented in-process run vs fresh uninstrumented interpreters (C09)."""
+    from . import e7_fresh
+
+    plain_case = {k: v for k, v in case.items() if k != "e7"}
+    mine = observe(plain_case, order)
+    results, aslr_off = e7_fresh.sweep([plain_case], hashseeds, paddings)
+    labelled = [("instrumented in-process run (order %d)" % order, mine)] + [
+        (label, obs[0]) for label, obs in results]
+    for i in range(len(labelled)):
+        for j in range(i):
+            problem = compare_observations(labelled[j][1], labelled[i][1], labelled[j][0],
+                                           labelled[i][0])
+            run.check(problem is None, ("C09",), "C09.differs-across-processes",
+                      lambda: f"{problem}; case {plain_case}")
+    run.fault("fresh_process", len(results))
+    if not aslr_off:
+        run.probe("setarch_unavailable")
+    return run
+
+
+def post_phase(pid, tier, base_seed, cases):
+    """Engine E7 after the seeded search of C09: sweep sampled cases through fresh
+    interpreters running the uninstrumented package under real hash seeds."""
+    if pid != "C09" or not cases:
+        return None
+    from . import e7_fresh
+    from .kernel import derive_seed
+
+    limit = 240 if tier == "thorough" else 96
+    cases = [c for c in cases if any(o["op"] in ("solve", "meta", "agree") for o in c["ops"])]
+    cases = cases[:limit]
+    nconf = 4 if tier == "thorough" else 3
+    hashseeds = [derive_seed(base_seed, "e7-hash", i) % 4294967295 for i in range(nconf)]
+    paddings = [0] + [derive_seed(base_seed, "e7-pad", i) % 200000 for i in range(1, nconf)]
+    mine = [observe(c, 2 + i % 11) for i, c in enumerate(cases)]
+    results, aslr_off = e7_fresh.sweep(cases, hashseeds, paddings)
+    out = {"evaluations": len(cases) * (1 + len(results)), "checks": 0,
+           "faults": {"fresh_process": len(results)}, "probes": {"e7_cases": len(cases)},
+           "failure": None, "digests": []}
+    if not aslr_off:
+        out["probes"]["setarch_unavailable"] = 1
+    for ci, case in enumerate(cases):
+        sides = [("instrumented in-process run", mine[ci])] + [
+            (label, obs[ci]) for label, obs in results]
+        for i in range(len(sides)):
+            for j in range(i):
+                out["checks"] += 1
+                problem = compare_observations(sides[j][1], sides[i][1], sides[j][0], sides[i][0])
+                if problem is not None and out["failure"] is None:
+                    out["failure"] = {
+                        "case": dict(case, e7={"hashseeds": hashseeds, "paddings": paddings,
+                                               "order": 2 + ci % 11}),
+                        "label": "C09.differs-across-processes",
+                        "message": problem,
+                    }
+        out["digests"].append("e7-" + kernel_case_digest(case))
+    return out
+
+
+def kernel_case_digest(case):
+    from .kernel import case_digest
+
+    return case_digest(case)
+
+
 def execute(case, focus=None):
     run = Run(focus)
     ORACLE.begin(0)
+    if case.get("e7"):
+        cfg = case["e7"]
+        return e7_check(run, case, cfg["hashseeds"], cfg["paddings"], cfg["order"])
     slots = [Slot(spec) for spec in case["inputs"]]
     regime = case["regime"]
     for idx, op in enumerate(case["ops"]):
@@ -1097,3 +1166,98 @@ def describe(pid):
             "C10": ["order_permuted", "single_family", "hgt_inf", "transfer_in_optimum"],
         }[pid],
     }
+
+
+# --------------------------------------------------------------------------------------
+# E7: fresh-process sweep of the UNINSTRUMENTED package under real hash seeds
+# --------------------------------------------------------------------------------------
+def observe(case, order=0):
+    """Oracle-free execution of the solve / meta / agree operations of a case.  Returns one
+    canonical observation per solver call: (op index, slot, algo, policy, cost, keys)."""
+    dp = _m["dp"]
+    slots = [Slot(spec) for spec in case["inputs"]]
+    obs = []
+    ORACLE.begin(order)  # only matters when the package is instrumented
+
+    def call(slot_idx, slot, algo, policy, idx):
+        mode = MODE[algo]
+        if mode is not None and slot.spec["syn"] is None:
+            return
+        if not slot.binary and (algo.startswith("base") or mode is None):
+            return
+        if mode == "unordered" and slot.spec["root_order"] is not None:
+            return
+        if algo == "exh" and (len(ref.nested_leaves(slot.spec["object"])) > 6
+                              or len(ref.nested_leaves(slot.spec["species"])) > 6):
+            return
+        policy = tame_policy(slot, policy)
+        try:
+            with quiet():
+                if algo == "lca":
+                    outs = [_m["algos"][algo](slot.obj)]
+                else:
+                    outs = list(_m["algos"][algo](slot.obj, dp.RetentionPolicy[policy]))
+        except Exception as exc:  # noqa: BLE001
+            obs.append([idx, slot_idx, algo, policy, "raised " + type(exc).__name__, None])
+            return
+        keys = sorted(repr(canon.output_key(o, mode is not None)) for o in outs)
+        costs = sorted({repr(o.cost()) for o in outs})
+        obs.append([idx, slot_idx, algo, policy, costs, keys])
+
+    for idx, op in enumerate(case["ops"]):
+        if op["op"] == "solve":
+            si = op["input"] % len(slots)
+            call(si, slots[si], op["algo"], op["policy"], idx)
+        elif op["op"] == "relabel":
+            slots[op["input"] % len(slots)].obj.label_internal()
+        elif op["op"] == "meta":
+            si = op["input"] % len(slots)
+            slot = slots[si]
+            if not slot.binary or not in_region(slot.spec["costs"], MODE[op["algo"]] is not None):
+                continue
+            derived = derive(slot.spec, op["kind"], op["param"])
+            if derived is None:
+                continue
+            call(si, slot, op["algo"], "ALL", idx)
+            if op["kind"] == "again":
+                call(si, slot, op["algo"], "ALL", idx)
+            else:
+                slots.append(Slot(derived[0]))
+                call(len(slots) - 1, slots[-1], op["algo"], "ALL", idx)
+        elif op["op"] == "agree":
+            si = op["input"] % len(slots)
+            for algo in (ALGOS if slots[si].spec["syn"] is not None else ("lca", "thl")):
+                call(si, slots[si], algo, "ANY", idx)
+    return obs
+
+
+def compare_observations(a, b, label_a, label_b):
+    """-> problem string or None.  ALL sets and costs must agree exactly; an ANY answer must
+    have the same cost and, where an ALL set of the same (slot, algo) is known on either side,
+    belong to it."""
+    if len(a) != len(b):
+        return f"{label_a} made {len(a)} solver calls, {label_b} made {len(b)}"
+    all_sets = {}
+    for side in (a, b):
+        for idx, si, algo, policy, costs, keys in side:
+            if policy == "ALL" and keys is not None:
+                all_sets.setdefault((si, algo), set()).update(keys)
+    for x, y in zip(a, b):
+        if x[:4] != y[:4]:
+            return f"call sequence differs: {x[:4]} vs {y[:4]}"
+        if x[4] != y[4]:
+            return (f"op {x[0]} {x[2]}({x[3]}) on input {x[1]}: cost {x[4]} in {label_a}, "
+                    f"{y[4]} in {label_b}")
+        if x[3] == "ALL" and x[5] != y[5]:
+            only_a = sorted(set(x[5] or []) - set(y[5] or []))[:1]
+            only_b = sorted(set(y[5] or []) - set(x[5] or []))[:1]
+            return (f"op {x[0]} {x[2]}(ALL) on input {x[1]}: optimal sets differ between "
+                    f"{label_a} ({len(x[5] or [])}) and {label_b} ({len(y[5] or [])}); only "
+                    f"{label_a}: {only_a}; only {label_b}: {only_b}")
+        if x[3] == "ANY" and x[2] != "lca":
+            known = all_sets.get((x[1], x[2]))
+            for side, lab in ((x, label_a), (y, label_b)):
+                if known and side[5] and not set(side[5]) <= known:
+                    return (f"op {side[0]} {side[2]}(ANY) on input {side[1]} in {lab} is not a "
+                            f"member of the ALL set seen in this history")
+    return None
